@@ -38,6 +38,9 @@ const modPath = "github.com/advancedclimatesystems/gonnx"
 const controlPkgSuffix = "/zzverifcontrol"
 
 // Ctx is the loaded program plus the obligation sink.
+// theCtx: the context of the running check (set once after loading; for helpers without a receiver)
+var theCtx *Ctx
+
 type Ctx struct {
 	repo  string
 	tier  string
@@ -65,6 +68,7 @@ type Ctx struct {
 	inlineExtractors map[*ssa.Call]*extractor
 	termInline       bool
 	termSubst        []map[*ssa.Parameter]string
+	termSubstVals    []map[*ssa.Parameter]ssa.Value
 	rangeCheckerMemo map[*ssa.Function]bool
 	tableCovered     map[string]string // function name -> key of the finite table that walked it and passed
 	dimsGateMemo     map[string]dimsGateRes
